@@ -135,7 +135,11 @@ func c06Val(m *net.Message) string {
 	return v
 }
 
-func c06Replay(cs *c06Case, burst bool) (*c06Obs, string) {
+func c06Replay(cs *c06Case, burst bool) (*c06Obs, string) { return c06ReplayF(cs, burst, false) }
+
+// c06ReplayF: with wfault every write of the server towards connection c1 fails (the peer never sees an
+// answer); what the server does otherwise - in particular closing a refused connection - must not change.
+func c06ReplayF(cs *c06Case, burst, wfault bool) (*c06Obs, string) {
 	auth := newAuth(cs.Mode, cs.Script)
 	r, err := newRig(auth, []string{"1"}, false)
 	if err != nil {
@@ -146,6 +150,11 @@ func c06Replay(cs *c06Case, burst bool) (*c06Obs, string) {
 		if _, err := r.connectRaw(cn); err != nil {
 			hlib.Fatal("connect: %v", err)
 		}
+	}
+	if wfault {
+		r.w.mu.Lock()
+		r.conns["c1"].srv.w.failWrites = true
+		r.w.mu.Unlock()
 	}
 	settle := func() bool { return r.w.waitFor(tBound, func() bool { return r.settledLocked(nil, nil) }) }
 	stuck := ""
@@ -297,6 +306,30 @@ func cmdC06Child(args []string) {
 			}
 			if rp.Class != "" {
 				rp.Case = map[string]interface{}{"authenticator": cs.Mode, "frames": cs.Seq, "mode": "settled", "got": got, "expected": cs.Settled}
+			}
+		}
+		if rp.Class == "" && cs.Settled != nil {
+			// third run: the server cannot write to c1.  Answers are not comparable (none arrives on c1);
+			// which connections end up closed, what ran and what the authenticator was asked must be as
+			// specified - a refused connection is closed whether or not the error answer could be written
+			got, stuck := c06ReplayF(&cs, false, true)
+			rp.Runs++
+			exp := *cs.Settled
+			if canon(exp.Execs) != canon(got.Execs) || canon(exp.Auth) != canon(got.Auth) || canon(exp.Closed) != canon(got.Closed) {
+				g2 := *got
+				g2.Got = exp.Got
+				rp.Mode = "write-fault"
+				rp.Class, rp.Detail = c06Diff(&cs, &g2, []c06Obs{exp})
+				if rp.Class == "c06/responses-differ" {
+					rp.Class = ""
+				}
+			}
+			if rp.Class == "" && stuck != "" {
+				rp.Mode = "write-fault"
+				rp.Class, rp.Detail = "c06/stuck", stuck
+			}
+			if rp.Class != "" {
+				rp.Case = map[string]interface{}{"authenticator": cs.Mode, "frames": cs.Seq, "mode": "server cannot write to c1", "got": got, "expected": cs.Settled}
 			}
 		}
 		if rp.Class == "" && len(cs.Burst) > 0 && len(cs.Seq) > 1 {
